@@ -59,7 +59,7 @@ PROBES = {'C06': ['readd_removed_other_stride', 'append_differing_props', 'extra
                   'op_on_empty_array', 'nonlocal_tags_at_align', 'pickle_strided', 'set_tag_called',
                   'clear_then_reuse', 'append_update_constants', 'remove_all', 'extract_duplicate_indices',
                   'add_property_fills_empty_array', 'fill_empty_array_with_strided_props_declared', 'remove_unsorted_indices', 'copy_properties_open_ended', 'redeclared_existing_property',
-                  'redeclared_existing_strided_property']}
+                  'redeclared_existing_strided_property', 'truthy_flag_not_the_True_object']}
 
 
 def prepare(prop, tier):
@@ -455,7 +455,12 @@ def apply_op(w, op):
         if ii != sorted(ii):
             w.probe('remove_unsorted_indices')
         arg = list(ii) if how == 0 else (np.array(ii) if how == 1 else _long(ii))
-        pa.remove_particles(arg, align=flag)
+        # any truthy / falsy value is a legal flag
+        salt_ = int(op.get('salt', 0)) % 3
+        al = flag if salt_ == 0 else (int(flag) if salt_ == 1 else np.bool_(flag))
+        if salt_ and flag:
+            w.probe('truthy_flag_not_the_True_object')
+        pa.remove_particles(arg, align=al)
         _remove(w, m, gone)
         if len(ii) == n:
             w.probe('remove_all')
